@@ -360,7 +360,15 @@ func (fr *frame) runFrame() {
 				panic(pathEnd{kind: "unwind", msg: fmt.Sprintf("step budget %d exhausted", x.cfg.MaxSteps) + x.whereAmI()})
 			}
 			fr.curPos = instr.Pos()
-			if fr.visit(instr) == kReturn {
+			k := fr.visit(instr)
+			if traceFn != "" && strings.Contains(fr.fn.String(), traceFn) {
+				if v, ok := instr.(ssa.Value); ok {
+					fmt.Fprintf(os.Stderr, "TRACE %s: %s = %s  => %s\n", fr.fn.Name(), v.Name(), instr, x.describe(fr.env[v], 3))
+				} else {
+					fmt.Fprintf(os.Stderr, "TRACE %s: %s\n", fr.fn.Name(), instr)
+				}
+			}
+			if k == kReturn {
 				return
 			}
 		}
@@ -369,6 +377,8 @@ func (fr *frame) runFrame() {
 
 // fallthroughVal is returned by an intrinsic that declines: the real body is interpreted instead.
 type fallthroughVal struct{}
+
+var traceFn = os.Getenv("GOSYM_TRACEFN")
 
 type continuation int
 
@@ -747,6 +757,24 @@ func (x *Exec) storeTo(addr Value, v Value) {
 
 // store is the single mutation point of memory slots (journaled so a path can be undone).
 func (x *Exec) store(p Ptr, v Value) {
+	// aggregates are assigned element-wise into the existing slots: pointers to fields and
+	// elements taken earlier stay valid, as they do in real memory
+	switch nv := v.(type) {
+	case Struct:
+		if ov, ok := (*p).(Struct); ok && len(ov) == len(nv) {
+			for i := range nv {
+				x.store(&ov[i], nv[i])
+			}
+			return
+		}
+	case Array:
+		if ov, ok := (*p).(Array); ok && len(ov) == len(nv) {
+			for i := range nv {
+				x.store(&ov[i], nv[i])
+			}
+			return
+		}
+	}
 	if x.journalOn {
 		old := *p
 		x.journal = append(x.journal, func() { *p = old })
